@@ -229,6 +229,36 @@ func (x *Exec) frameCheck(st *State, fr *Frame, c *Contract, in *ssa.Return) {
 			})
 		}
 	}
+	// writes into the spare capacity of a backing array held by an object (see builtin append)
+	for k := range st.ghost {
+		if !strings.HasPrefix(k, "aliaswrite:") {
+			continue
+		}
+		parts := strings.SplitN(strings.TrimPrefix(k, "aliaswrite:"), ":", 2)
+		if len(parts) != 2 {
+			continue
+		}
+		sortName, ref := parts[0], parts[1]
+		if sortName == "cell" {
+			cell := x.aliasCells[ref]
+			if cell == nil || allowedCells[cell] {
+				continue
+			}
+			if _, atEntry := fr.entry.cells[cell]; atEntry {
+				x.oblige(st, fr, "frame.sharedappend.cell", "frame", "frame", "false", in, nil)
+			}
+			continue
+		}
+		if allHeap[sortName] {
+			continue
+		}
+		var alts []string
+		for _, a := range allowed[sortName] {
+			alts = append(alts, tEq(a, ref))
+		}
+		alts = append(alts, tCmp("<=", fr.entry.top, ref)) // an object allocated during the call
+		x.oblige(st, fr, "frame.sharedappend."+sortName, "frame", "frame", tOr(alts...), in, nil)
+	}
 	checkCell := func(name string, v Val) {
 		pv, ok := v.(PtrV)
 		if !ok || pv.Cell == nil || allowedCells[pv.Cell] {
